@@ -13,7 +13,7 @@ open Evl.FileSink
 /-- A write first rotates exactly when the active file, since it was opened, already holds at least
 MaxBytes (MaxBytes > 0) or is older than MaxDuration (MaxDuration > 0). -/
 theorem trigger_iff (c : Cfg) (bw el : Nat) :
-    needRotate c bw el = true ↔ (c.maxBytes > 0 ∧ bw ≥ c.maxBytes) ∨ (c.maxDuration > 0 ∧ el > c.maxDuration) := by
+    needRotate c bw el = true ↔ (c.maxBytes > 0 ∧ bw ≥ c.maxBytes) ∨ (c.maxDuration > 0 ∧ (el : Int) > c.maxDuration) := by
   unfold needRotate
   simp only [Bool.or_eq_true, Bool.and_eq_true, decide_eq_true_eq]
   constructor
@@ -29,6 +29,17 @@ theorem trigger_on_source :
     Evl.Generated.rotateCond =
       [[{ l := .bytesWritten, op := .ge, r := .maxBytes }, { l := .maxBytes, op := .gt, r := .zero }],
        [{ l := .elapsed, op := .gt, r := .maxDuration }, { l := .maxDuration, op := .gt, r := .zero }]] := by decide
+
+/-- A non-positive MaxDuration (zero, or a negative "disabled" value) never rotates by age: only the
+size limit can. -/
+theorem no_age_rotation_without_positive_duration (c : Cfg) (bw el : Nat) (h : c.maxDuration ≤ 0) :
+    needRotate c bw el = true ↔ (c.maxBytes > 0 ∧ bw ≥ c.maxBytes) := by
+  rw [trigger_iff]
+  constructor
+  · rintro (h1 | ⟨h1, _⟩)
+    · exact h1
+    · omega
+  · intro h1; exact Or.inl h1
 
 /-- With neither limit nothing ever rotates: the state after `rotate` is the state before. -/
 theorem never_without_limits (c : Cfg) (s : St) (el : Nat) (h1 : c.maxBytes = 0) (h2 : c.maxDuration = 0) :
